@@ -34,6 +34,19 @@ func verifSeed(s uint64) {
 }
 '''
 
+def put(path, content):
+    """Write atomically and only when the content changed (builds run concurrently)."""
+    try:
+        if open(path).read() == content:
+            return
+    except OSError:
+        pass
+    tmp = "%s.%d.tmp" % (path, os.getpid())
+    with open(tmp, "w") as f:
+        f.write(content)
+    os.replace(tmp, path)
+
+
 def main(out):
     os.makedirs(out, exist_ok=True)
     rt = os.path.join(GOROOT, "src", "runtime")
@@ -45,7 +58,7 @@ def main(out):
         ("func rand() uint64 {\n", "func rand() uint64 {\n\tif verifOn {\n\t\treturn verifNext()\n\t}\n", 1),
         ("\tmp.cheaprand = rand()\n", "\tmp.cheaprand = bootstrapRand()\n", 1),
     ], p) + RAND_ADD
-    open(os.path.join(out, "rand.go"), "w").write(s); repl[p] = os.path.join(out, "rand.go")
+    put(os.path.join(out, "rand.go"), s); repl[p] = os.path.join(out, "rand.go")
     # alg.go
     p = os.path.join(rt, "alg.go")
     s = open(p).read()
@@ -53,15 +66,15 @@ def main(out):
         ("hashkey[i] = uintptr(bootstrapRand())", "hashkey[i] = uintptr(0x9e3779b97f4a7c15 * uint64(i+1))", 1),
         ("key[i] = bootstrapRand()", "key[i] = 0xbf58476d1ce4e5b9 * uint64(i+1)", 1),
     ], p)
-    open(os.path.join(out, "alg.go"), "w").write(s); repl[p] = os.path.join(out, "alg.go")
+    put(os.path.join(out, "alg.go"), s); repl[p] = os.path.join(out, "alg.go")
     # select.go
     p = os.path.join(rt, "select.go")
     s = open(p).read()
     s = patch(s, [
         ("j := cheaprandn(uint32(norder + 1))", "j := cheaprandn(uint32(norder + 1))\n\t\tif verifOn {\n\t\t\tj = uint32(verifNext() % uint64(norder+1))\n\t\t}", 1),
     ], p)
-    open(os.path.join(out, "select.go"), "w").write(s); repl[p] = os.path.join(out, "select.go")
-    json.dump({"Replace": repl}, open(os.path.join(out, "overlay.json"), "w"), indent=1)
+    put(os.path.join(out, "select.go"), s); repl[p] = os.path.join(out, "select.go")
+    put(os.path.join(out, "overlay.json"), json.dumps({"Replace": repl}, indent=1))
 
 if __name__ == "__main__":
     main(sys.argv[1])
